@@ -105,6 +105,10 @@ func runC16(ctx *Ctx) {
 		runC16CLI(ctx)
 		return
 	}
+	if r.Intn(5) == 0 {
+		runC16PBar(ctx)
+		return
+	}
 	in := &c16Input{FailAt: -1}
 	nb := 2 + r.Intn(12)
 	if ctx.Thorough() && r.Intn(4) == 0 {
@@ -144,6 +148,10 @@ func runC16(ctx *Ctx) {
 func corpusC16(ctx *Ctx, op string, raw json.RawMessage) {
 	if op == "merge" {
 		corpusC16Merge(ctx, raw)
+		return
+	}
+	if op == "pbar" {
+		corpusC16PBar(ctx, raw)
 		return
 	}
 	if op == "ingest-cli" {
